@@ -2046,7 +2046,10 @@ class RedunBackendDb(RedunBackend):
         with self.with_session() as session:
             value_row = session.get(Value, value_hash)
             if value_row:
-                # Value already recorded.
+                # Value already recorded. Its File/Task row is committed separately, so make
+                # sure it exists too in case a previous attempt stopped between the two commits.
+                if isinstance(value, (BaseFile, BaseTask)):
+                    self._record_special_redun_values([value], [value_hash])
                 return value_hash
 
             type_name = self.type_registry.get_type_name(type(value))
